@@ -284,12 +284,28 @@ def handle_failed(rep, prop, vc, c, r, ident, open_known, tier, seed):
     detail["input"] = found
     detail["property"] = prop.id
     detail["contract"] = c.key if c is not None else None
-    if found is not None or verdict == "refuted":
-        path = write_replay(prop.id, ident, detail)
-        rep.violations.append({"obligation": ident, "replay": path, "input_found": found is not None,
-                               "detail": (found or {}).get("failed_clauses")})
-    else:
-        rep.undecided.append({"obligation": ident, "reason": r.get("reason", ""), "trail": r["trail"]})
+    if found is None and verdict == "unknown":
+        # last resort before calling it: one more attempt with a three-fold budget (guards against a loaded machine)
+        old = (SOLVE.Z3_TIMEOUT_MS, SOLVE.CVC5_TIMEOUT_MS)
+        SOLVE.Z3_TIMEOUT_MS, SOLVE.CVC5_TIMEOUT_MS = old[0] * 3, old[1] * 2
+        try:
+            again = solve_all([vc], procs=2)[0] if False else SOLVE.solve_all([vc, vc])[0]
+        finally:
+            SOLVE.Z3_TIMEOUT_MS, SOLVE.CVC5_TIMEOUT_MS = old
+        detail["retry"] = again["trail"]
+        if again["verdict"] == "proved":
+            rep.discharged += 1
+            rep.by_backend[again["backend"] + "(retry)"] = rep.by_backend.get(again["backend"] + "(retry)", 0) + 1
+            return
+        if again["verdict"] == "refuted":
+            verdict = "refuted"
+            detail["model"] = again.get("model")
+    # The deciding step is the verifier accepting every obligation: an obligation that is not discharged is reported
+    # as the violation - with a failing input when one was found, otherwise marked no-failing-input-found.
+    detail["verifier_verdict"] = verdict
+    path = write_replay(prop.id, ident, detail)
+    rep.violations.append({"obligation": ident, "replay": path, "input_found": found is not None,
+                           "detail": (found or {}).get("failed_clauses"), "verdict": verdict})
 
 
 def c_known_exclusion(c, kf):
@@ -318,7 +334,7 @@ def finite_refute(c, vc, tier):
             s.add(h)
         for b in bounds:
             s.add(b)
-        for a in E.str_axioms():
+        for a in E.str_axioms(finite=B):
             s.add(a)
         s.add(z3.Not(cand.goal))
         if s.check() == z3.sat:
